@@ -285,6 +285,9 @@ Definition m_step_gen (setf : setter) (st : mstate) (o : op) : res (mstate * nat
         | None => Ok (st, R_INVALID)
         | Some _ => Ok (st, R_OK)
         end)
+  | AddSeparator =>             (* sep := newSeparator(); t.rows = append(t.rows, sep): a fresh Row each time, no cells, columns untouched *)
+      Ok (mkSt (m_heap st) (m_table st) (m_cols st) (m_ncols st)
+               (m_rows st ++ [mkRow None [] true]) (m_dets st) (m_handles st), R_OK)
   | NewCellOf ow =>             (* NewCell(c): Cell{raw: c}; the new cell's own propertyImpl is the zero value *)
       if is_cell_owner ow then
         bind (head_of st ow) (fun hp =>
